@@ -20,7 +20,7 @@ PROPERTY = "C19"
 LEVEL = "exploration"
 EXHAUSTIVE = {"quick": True, "thorough": True}
 MANIFEST = {
-    "level_text": "Exhaustive enumeration of the finite domains named by the property: Easter for every year -4712..10000, Pesach for every year 1..3000, every Moslem date of 1..2500 AH (885 917 dates) and every civil day 622-07-16..3000-12-31 (868 713 days), each against an independent integer reference calendar. For these finite domains the property is decided completely for the tree it ran on.",
+    "level_text": "Exhaustive enumeration of the finite domains named by the property: Easter for every year -4712..10000, Pesach for every year 1..3000, every Moslem date of 1..2500 AH (885 917 dates) and every civil day 622-07-16..3000-12-31 (868 713 days), each against an independent integer reference calendar. For these finite domains the property is decided completely for the tree it ran on. Easter and Pesach are also enumerated in descending and permuted order.",
     "level_note": "Trusts the integer reference models (tabular Computus, molad/dehiyyot Hebrew calendar, 30-year-cycle Islamic calendar, integer Julian Day Numbers), which are self-tested on every run against well-known dates and structural invariants.",
     "technique": "exhaustive generated-input enumeration vs integer reference calendars (differential oracle)",
 }
@@ -43,7 +43,8 @@ RULE = ("Enumeration, no sampling, identical in both tiers. easter: one case per
         "month 1 of the next year) of the previous day's Moslem date. Every enumerated "
         "year/date is distinct by construction and counts as non-trivial; "
         "distinct_nontrivial is the number of years (easter, pesach) plus dates "
-        "(moslem, civil) enumerated.")
+        "(moslem, civil) enumerated."
+        " The Easter and Pesach years are enumerated three times, each in a process of its own: ascending, descending and in a seed-derived permutation, the last two after calls for years outside the domain (not asserted). Every seventh civil day is also given as a float and with decimals of the day (0.25 .. 0.999): the same Moslem date or a TypeError/ValueError.")
 ASSUMPTIONS = [
     "arithmetic Islamic calendar = civil (Friday) epoch 16 July 622 Julian, JD 1948439.5, "
     "leap years 2, 5, 7, 10, 13, 16, 18, 21, 24, 26, 29 of every 30 (the intercalation "
